@@ -105,6 +105,10 @@ def catalog():
             "setup": [build(names, {"kind": "pool", "workers": 1}), sub("p0", [["raise", "E0"], ["tag"]]), sub("p1"), ["sleep", 0.25]],
             "threads": [[shutdown_op(True, True), ["threads"], sub("after"), shutdown_op(True, True)], [sub("s0")]],
             "settle": 2, "final": []}}
+    # two small programs once more with EVERY bytecode instruction of helpers.py (the shutdown gate) / cancel_on_shutdown.py as a
+    # scheduling point
+    out["instr/double-map"] = dict(out["double/map"], instr_points=["helpers.py"])
+    out["instr/double-cos"] = dict(out["double/cos"], instr_points=["helpers.py", "cancel_on_shutdown.py"])
     return out
 
 
@@ -280,7 +284,10 @@ def run_shard(spec, ctx):
     if spec["mode"] == "sweep":
         cat = catalog()
         for name in spec["entries"]:
-            progs.sweep(ctx, cat[name]["prog"], name, evaluate, account, double=spec.get("double"), extra={"entry": name, "max_vtime": 200})
+            extra = {"entry": name, "max_vtime": 200}
+            if cat[name].get("instr_points"):
+                extra["instr_points"] = cat[name]["instr_points"]
+            progs.sweep(ctx, cat[name]["prog"], name, evaluate, account, double=spec.get("double") and not cat[name].get("instr_points"), extra=extra)
     else:
         progs.random_search(ctx, spec, case_strategy(), evaluate, account)
 
